@@ -76,10 +76,25 @@ class Algebra:
             if cb is not None:
                 inner = Algebra(self.crate, self.depth + 1)
                 out = []
+                # what the closure does besides computing its value (calls through a `&mut`): carried
+                # as markers on the cases in which the closure runs
+                did = []
+                cs_ = S.Sym(cb)
+                for blk, t in cb.calls():
+                    ci = t["func"] if t["func"].get("k") == "const" and "fn" in t["func"] else None
+                    if not ci or not t["args"]:
+                        continue
+                    a0 = t["args"][0]
+                    if a0["k"] in ("copy", "move") and cb.local_ty(a0["p"]["local"]).startswith("&mut "):
+                        name = ci.get("resolved") or ci["fn"]
+                        if name.startswith(("quote::", "proc_macro2::", "<proc_macro2::", "core::fmt::", "<core::fmt::")):
+                            continue      # building tokens / formatting is part of the value
+                        eargs = tuple(_subst_closure(S.strip_transparent(cs_.operand(a)), f[2], args) for a in t["args"])
+                        did.append((("effect", name, eargs), True))
                 for conds, v in inner.body_cases(cb):
                     v2 = _subst_closure(v, f[2], args)
                     at = tuple((_subst_closure(e, f[2], args), val) for e, val in conds)
-                    out.append((at, v2))
+                    out.append((at + tuple(did), v2))
                 if out:
                     return out
         return [((), ("call", ("indirect", f), tuple(args)))]
@@ -131,6 +146,12 @@ class Algebra:
                     else:
                         for at2, w in self.apply(a[1], []):
                             out.append((at + at2, ("agg", ERR, (w,))))
+                return out
+            if c in (R + "ok", R + "err") and len(a) == 1:
+                out = []
+                for at, v in self.split(a[0], OK, ERR, IS_OK):
+                    hit = _is_agg(v, OK) if c == R + "ok" else _is_agg(v, ERR)
+                    out.append((at, ("agg", SOME, (v[2][0],)) if hit else ("agg", NONE, ())))
                 return out
             if c in (O + "or", O + "or_else") and len(a) == 2:
                 out = []
@@ -306,6 +327,9 @@ class Algebra:
                     cur = set(cs)
                     bad = False
                     for (ee, val) in extra:
+                        if ee[0] == "effect":
+                            cur.add((self.rewrite(ee), val))
+                            continue
                         a = S.normalise_atom(self.rewrite(ee), val)
                         f = S.fold_atom(a[0], a[1])
                         if f is False:
@@ -339,6 +363,8 @@ def expr_cases(ctx, body, node):
         conds = []
         bad = False
         for ee, val in extra:
+            if ee[0] == "effect":
+                continue
             if ee[0] == "pc-of":
                 # value taken from a local assigned on several branches: the branch's own condition
                 ds = pc.conditions(ee[1])
@@ -361,13 +387,58 @@ def expr_cases(ctx, body, node):
     return out
 
 
+def _atom(e, val, s):
+    if e[0] == "effect":
+        return "did:%s(%s)" % (e[1], ", ".join(S.show(S.strip_transparent(x), s) for x in e[2]))
+    return S.atom_str(e, val, s)
+
+
 def cases(ctx, body):
     """[(sorted atom strings, rendered value)] of a function body"""
     alg = Algebra(body.crate)
     s, _ = ctx.sym(body)
     out = []
     for conds, v in alg.body_cases(body):
-        row = (sorted(S.atom_str(e, val, s) for e, val in conds), S.show(S.strip_transparent(v), s))
+        row = (sorted(_atom(e, val, s) for e, val in conds), S.show(S.strip_transparent(v), s))
         if row not in out:
             out.append(row)
+    return out
+
+
+def effects(ctx, body, callee_rx):
+    """Calls matching `callee_rx` that `body` makes, with the condition under which each runs:
+    [(sorted condition atoms, [rendered args])].  A call in a branch of `body` and a call inside a
+    closure handed to map_err/and_then/... on that branch give the same entry."""
+    import re as _re
+    rx = _re.compile(callee_rx)
+    out = []
+    for blk, t in ctx.find_calls(body, callee_rx):
+        for d in ctx.pc_strs(body, blk) or [set()]:
+            row = (sorted(d), [ctx.expr(body, a) for a in t["args"]])
+            if row not in out:
+                out.append(row)
+    for conds, v in cases(ctx, body):
+        for a in conds:
+            m = _re.match(r"^did:([^(]*)\((.*)\)$", a)
+            if m and rx.search(m.group(1)):
+                row = (sorted(x for x in conds if not x.startswith("did:")), _split_args(m.group(2)))
+                if row not in out:
+                    out.append(row)
+    return out
+
+
+def _split_args(s):
+    out, depth, cur = [], 0, ""
+    for ch in s:
+        if ch in "([{<":
+            depth += 1
+        elif ch in ")]}>":
+            depth -= 1
+        if ch == "," and depth == 0:
+            out.append(cur.strip())
+            cur = ""
+        else:
+            cur += ch
+    if cur.strip():
+        out.append(cur.strip())
     return out
